@@ -142,7 +142,14 @@ def key(r):
     return KEYMAP.get(r, r + 20)
 
 
-def stmt_sql(e, obs_before, pk, rnd):
+# Refinement of a row token into `fat` physical rows whose keys are spread over the whole key range
+# (j * 32 + key): every abstract INSERT / DELETE touches every block of a multi-block row-set, delete
+# vectors hold positions in every block, and the sorted scan alternates between row-sets all the time.
+def phys(r, fat):
+    return [j * 32 + key(r) for j in range(fat)]
+
+
+def stmt_sql(e, obs_before, pk, rnd, fat=1):
     a = e["a"]
     if a == "ct":
         return f"create table {tname(e['n'])}(a int {'primary key' if pk else 'not null'}, b int)"
@@ -155,10 +162,15 @@ def stmt_sql(e, obs_before, pk, rnd):
     if a == "dt":
         return f"drop table {tname(e['n'])}"
     if a == "ins":
-        vals = ", ".join(f"({key(r)}, {key(r) * 10})" for r in e["rows"])
+        ks = [k for r in e["rows"] for k in phys(r, fat)]
+        if fat > 1:
+            rnd.shuffle(ks)
+        vals = ", ".join(f"({k}, {k * 10})" for k in ks)
         return f"insert into {tname(e['n'])} values {vals}"
     if a == "del":
         rows = sorted(e["rows"])
+        if fat > 1:
+            return f"delete from {tname(e['n'])} where " + " or ".join(f"a % 32 = {key(r)}" for r in rows)
         return f"delete from {tname(e['n'])} where " + " or ".join(f"a = {key(r)}" for r in rows)
     raise ValueError(a)
 
@@ -201,16 +213,23 @@ def history_actions(h):
     return [(a, o) for a, o in acts if o is not None]
 
 
-def probes(names, pk):
+def probes(names, pk, fat=1, rnd=None):
     st = []
     for n in names:
         st.append({"sql": f"select a, b from {tname(n)}", "probe": n})
         if pk:
             st.append({"sql": f"select a, b from {tname(n)} order by a", "probe_sorted": n})
+        if pk and fat > 1:
+            # key ranges that start / end inside the row-sets (pushed down into the scan)
+            lo = rnd.choice([j * 32 + c for j in range(1, fat) for c in (0, 3, 7)])
+            hi = lo + rnd.choice([0, 5, 32, 70])
+            st.append({"sql": f"select a, b from {tname(n)} where a >= {lo}", "probe_range": n, "lo": lo, "hi": None})
+            st.append({"sql": f"select a, b from {tname(n)} where a >= {lo} and a <= {hi}", "probe_range": n,
+                       "lo": lo, "hi": hi})
     return st
 
 
-def to_sql_case(cid, h, opts, pk, seed, names):
+def to_sql_case(cid, h, opts, pk, seed, names, fat=1):
     rnd = random.Random(seed)
     acts = history_actions(h)
     steps, plan = [], []          # plan: what each step is, for the verdict
@@ -225,18 +244,18 @@ def to_sql_case(cid, h, opts, pk, seed, names):
             steps.append({"op": "compact"})
             plan.append(("compact", e, obs))
         else:
-            steps.append({"sql": stmt_sql(e, prev_obs, pk, rnd)})
+            steps.append({"sql": stmt_sql(e, prev_obs, pk, rnd, fat)})
             plan.append(("stmt", e, obs))
         if obs["dead"]:
             break
-        for p in probes(names, pk):
+        for p in probes(names, pk, fat, rnd):
             steps.append(p)
             plan.append(("probe", p, obs))
         prev_obs = obs
-    return {"id": cid, "engine": "disk", "opts": opts, "steps": steps}, plan
+    return {"id": cid, "engine": "disk", "opts": opts, "steps": steps, "fat": fat}, plan
 
 
-def exp_state(db, names):
+def exp_state(db, names, fat=1):
     """Expected observation from an abstract database value of the spec."""
     out = {}
     for n in names:
@@ -246,7 +265,7 @@ def exp_state(db, names):
         elif v["k"] == "view":
             out[n] = "view"
         else:
-            out[n] = sorted([key(r), key(r) * 10] for r in v["rows"])
+            out[n] = sorted([k, k * 10] for r in v["rows"] for k in phys(r, fat))
     return out
 
 
@@ -265,9 +284,10 @@ def judge_history(v, case, plan, res, names, label):
 
 def judge_history_inner(v, case, plan, res, names, label, fired):
     """Compare what the code did with the spec's ideal (adb) and faithful (vis) predictions."""
+    fat = case.get("fat", 1)
     for (kind, e, obs), r in zip(plan, res["res"]):
-        ideal = exp_state(obs["adb"], names)
-        faith = exp_state(obs["vis"], names)
+        ideal = exp_state(obs["adb"], names, fat)
+        faith = exp_state(obs["vis"], names, fat)
         kf = [KNOWN_DEV[d] for d in obs["kf"] if d in KNOWN_DEV and v.is_known(KNOWN_DEV[d])]
 
         def mismatch(what, got, want_i, want_f):
@@ -287,14 +307,14 @@ def judge_history_inner(v, case, plan, res, names, label, fired):
                 return
             if r["ok"] and e["a"] == "ins":
                 got = dec_rows(r)
-                if got != [[len(e["rows"])]]:
+                if got != [[len(e["rows"]) * fat]]:
                     v.violation({"label": label, "case": case, "at": e, "result": r},
-                                f"INSERT acknowledged {got}, inserted {len(e['rows'])}")
+                                f"INSERT acknowledged {got}, inserted {len(e['rows']) * fat}")
                     return
             if r["ok"] and e["a"] == "del":
                 got = dec_rows(r)
-                if got != [[e["cnt"]]]:
-                    if mismatch(f"count of {e}", got, [[e["cnt"]]], None):
+                if got != [[e["cnt"] * fat]]:
+                    if mismatch(f"count of {e}", got, [[e["cnt"] * fat]], None):
                         return
         elif kind == "reopen":
             if r["ok"] == obs["dead"]:
@@ -312,14 +332,18 @@ def judge_history_inner(v, case, plan, res, names, label, fired):
         elif kind == "compact":
             pass
         elif kind == "probe":
-            n = e.get("probe") or e.get("probe_sorted")
+            n = e.get("probe") or e.get("probe_sorted") or e.get("probe_range")
             if not r["ok"]:
                 got = None
             else:
                 got = dec_rows(r)
-                if "probe" in e:
+                if "probe" in e or "probe_range" in e:
                     got = sorted(got)
             wi, wf = ideal[n], faith[n]
+            if "probe_range" in e:
+                cut = lambda rows: rows if not isinstance(rows, list) else \
+                    [x for x in rows if x[0] >= e["lo"] and (e["hi"] is None or x[0] <= e["hi"])]
+                wi, wf = cut(wi), cut(wf)
             if wi == "view" or wf == "view":
                 # a view is only a name in the specification; its content is not compared
                 ok_i = wi == "view" or wi == got
@@ -337,18 +361,21 @@ def judge_history_inner(v, case, plan, res, names, label, fired):
 
 
 GRID = [
-    ({"block": 16384, "rowset": 268435456, "checksum": True, "first_key": True}, True),
-    ({"block": 32, "rowset": 268435456, "checksum": False, "first_key": True}, False),
-    ({"block": 24, "rowset": 64, "checksum": True, "first_key": True}, True),
-    ({"block": 64, "rowset": 128, "checksum": True, "first_key": True}, False),
+    ({"block": 16384, "rowset": 268435456, "checksum": True, "first_key": True}, True, 1),
+    ({"block": 32, "rowset": 268435456, "checksum": False, "first_key": True}, False, 1),
+    ({"block": 24, "rowset": 64, "checksum": True, "first_key": True}, True, 1),
+    ({"block": 64, "rowset": 128, "checksum": True, "first_key": True}, False, 1),
+    # every row token refined into 9 / 7 physical rows: multi-block row-sets, key-range probes
+    ({"block": 24, "rowset": 268435456, "checksum": True, "first_key": True}, True, 9),
+    ({"block": 40, "rowset": 200, "checksum": False, "first_key": True}, True, 7),
 ]
 
 
 def replay_histories(v, pid, hists, seed, names, grid, tag):
     cases, plans = [], []
     for i, h in enumerate(hists):
-        for g, (opts, pk) in enumerate(grid):
-            c, plan = to_sql_case(f"{i}.{g}", h, opts, pk, seed * 1000 + i, names)
+        for g, (opts, pk, fat) in enumerate(grid):
+            c, plan = to_sql_case(f"{i}.{g}", h, opts, pk, seed * 1000 + i, names, fat)
             cases.append(c)
             plans.append(plan)
     outs = run_sharded("sql", cases, tag=tag)
@@ -366,7 +393,7 @@ def replay_histories(v, pid, hists, seed, names, grid, tag):
 
 # ---------------------------------------------------------------- the three checks
 def sample_case(c):
-    return [s.get("sql") or s.get("op") for s in c["steps"] if "probe" not in s and "probe_sorted" not in s]
+    return [s.get("sql") or s.get("op") for s in c["steps"] if "probe" not in s and "probe_sorted" not in s and "probe_range" not in s]
 
 
 def run_history_check(pid, args, views, stmts_q, stmts_t, boots, level_note, grid):
@@ -381,7 +408,7 @@ def run_history_check(pid, args, views, stmts_q, stmts_t, boots, level_note, gri
     big = tier == "thorough"
     hists, gen = generate(pid, tier, seed, known_devs, stmts_t if big else stmts_q, boots, views,
                           4000 if big else 160, names)
-    cases, nontriv = replay_histories(v, pid, hists, seed, names, grid if big else grid[:2] + grid[2:3], pid)
+    cases, nontriv = replay_histories(v, pid, hists, seed, names, grid if big else grid[:1] + grid[2:3] + grid[4:5], pid)
     rc = v.finish()
     cov = {"states": sum(r["distinct"] for r in mc_runs),
            "transitions": sum(r["generated"] for r in mc_runs),
@@ -440,10 +467,11 @@ def to_crash_case(cid, h, opts, pk, seed, names, prefix_mode, depth):
         plan.append((e, obs))
         prev = obs
     tables = [tname(n) for n in names] + ["zz"]
+    # groups separated by "--": the harness rotates their order from snapshot to snapshot
     probe = ["create table zz(a int primary key, b int)", "insert into zz values (1, 10), (2, 20)",
              "delete from zz where a = 1"]
     for n in names:
-        probe += [f"insert into {tname(n)} values (90, 900)", f"delete from {tname(n)} where a = 90"]
+        probe += ["--", f"insert into {tname(n)} values (90, 900)", f"delete from {tname(n)} where a = 90"]
     return ({"id": cid, "opts": opts, "steps": steps, "tables": tables, "probe": probe,
              "prefix_mode": prefix_mode, "depth": depth}, plan)
 
@@ -490,9 +518,11 @@ def judge_crash(v, case, plan, res, names):
                 continue
             # post-boot usability: the probe statements succeed exactly on existing tables
             pr = snap["probe"]
-            exp_ok = [True, True, True]
-            for n in names:
-                exp_ok += [got[n] is not None, got[n] is not None]
+            exp_ok = []
+            for sql in snap["probe_sql"]:
+                tn = re.search(r"(?:table|into|from) (\w+)", sql).group(1)
+                owner = [n for n in names if tname(n) == tn]
+                exp_ok.append(True if not owner else got[owner[0]] is not None)
             got_ok = [p["ok"] for p in pr]
             if got_ok != exp_ok:
                 v.violation(dict(info, probe=pr), f"after recovery from {s['label']} ({s['variant']}) "
@@ -529,9 +559,9 @@ def check_c04(args):
     big = tier == "thorough"
     hists, gen = generate(pid, tier, seed, [], 5 if big else 4, 2, False, 120 if big else 14, names)
     cases, plans = [], []
-    grid = GRID if big else [GRID[0], GRID[2]]
+    grid = GRID[:4] if big else [GRID[0], GRID[2]]
     for i, h in enumerate(hists):
-        opts, pk = grid[i % len(grid)]
+        opts, pk, _ = grid[i % len(grid)]
         c, plan = to_crash_case(str(i), h, opts, pk, seed * 1000 + i, names,
                                 "all" if big else "quick", 2 if (big and i % 4 == 0) else 1)
         cases.append(c)
